@@ -32,6 +32,10 @@ def build(tier):
             pre = [f"-1 <= j < {A} and -1 <= k < {A}", "j >= 0 or k < 0"] + (["k < 0"] if q and fn == "session_names" else [])
             src += hgen.cond(name, "j: int, k: int" + extra, pre, f"L.{fn}({i}, j, k{args})", sig="hb.KEY")
             conds += [Cond(name, "prop", T, group=fn), Cond(name + "__twin", "twin", 60, group=fn)]
+    # 2b. names on which Unicode normalisation / case folding is not the identity (Mode A): PWD round trip, life cycle, LIST and MLSx
+    # name fields, and the name the backend ends up storing
+    src += hgen.cond("uni_names", "ui: int, which: int", [f"0 <= ui < {len(L.UNI)}", "0 <= which <= 4"], "L.uni_names(ui, which)", sig="hb.KEY")
+    conds += [Cond("uni_names", "prop", T, group="unicode"), Cond("uni_names__twin", "twin", 60, group="unicode")]
     # 3. MLSx (Mode S)
     src += hgen.cond("mlsx_name", "name: str, is_dir: bool", [f"len(name) <= {n}", "L.valid_name(name)"], "L.mlsx_name(name, is_dir)")
     conds += [Cond("mlsx_name", "prop", T, group="mlsx"), Cond("mlsx_name__twin", "twin", 60, group="mlsx")]
@@ -45,6 +49,7 @@ def build(tier):
         bounds={
             "command builders": f"name = any Unicode string of length 1..{n} without '/', NUL, CR, LF and without trailing whitespace, not '.' / '..' (symbolic string); each of {L.METHODS}",
             "257 quoting": f"client parser on a symbolic name of length <= {4 if q else 5} inside an RFC-959 quoted reply with three tails; real server CWD+PWD -> real client get_current_directory for every name of <= 3 characters over {L.ALPH[:A]}",
+            "normalisation-sensitive names": f"{[ascii(x) for x in L.UNI]}: decomposed / precomposed pairs, singleton and compatibility decompositions, a composition exclusion, case-folding specials - PWD round trip, life cycle, LIST and MLSx name field, and the name the backend stores after MKD / STOR",
             "MLSx": f"symbolic name of length <= {n}, file or directory",
             "LIST fallback and whole life cycle": f"names of <= 3 (life cycle: <= {2 if q else 3}) characters over the same alphabet: LIST line round trip; MKD, CWD, PWD, CDUP, STOR, MLST, RNFR/RNTO, DELE, RMD through the real dispatcher",
         },
